@@ -276,3 +276,16 @@ pub fn with_ser_context<R>(f: impl FnOnce(&mut SerializationContext<Vec<u8>>) ->
         Ok((r, ctx.into_output()))
     }))
 }
+
+/// C07: encodings of other values that may follow a value in a stream (emitted by the specification,
+/// handed over in the file named by DV_FOLLOWERS); empty when the check does not provide them.
+pub fn followers() -> &'static Vec<Vec<u8>> {
+    static F: std::sync::OnceLock<Vec<Vec<u8>>> = std::sync::OnceLock::new();
+    F.get_or_init(|| {
+        std::env::var("DV_FOLLOWERS")
+            .ok()
+            .and_then(|p| std::fs::read_to_string(p).ok())
+            .and_then(|t| serde_json::from_str::<Vec<Vec<u8>>>(&t).ok())
+            .unwrap_or_default()
+    })
+}
